@@ -1,8 +1,1877 @@
-//! C12 blocking-style and poll-style adapters are lossless FIFO pipes — not built yet.
+//! C12 — blocking-style and poll-style adapters are lossless FIFO pipes.
+//!
+//! The real `SyncStream` / `AsyncStream` sit on a *scripted* completion-style
+//! inner stream that records every byte it produces and receives and whose
+//! every call follows a transfer atom {give n, accept n, accept 0, EOF, error,
+//! Pending-until-released}. The harness drives the adapter with a *call
+//! script* and compares, after every call, what the caller was told with what
+//! the inner stream saw (reference model = two byte queues):
+//!
+//! * write side: the concatenation of what `write`/`poll_write` accepted is a
+//!   prefix-extension of what the inner stream received — in order, exactly
+//!   once — also across failed flushes; a successful flush/close leaves
+//!   nothing behind; after the script a retry against a benign inner stream
+//!   delivers the rest;
+//! * read side: every byte handed out is the next byte the inner stream
+//!   produced; EOF only after all data and sticky; `into_parts` returns the
+//!   unread tail;
+//! * `WouldBlock` (sync) / `Pending` (poll) only when the model says that no
+//!   progress is possible without the async half / the blocked inner future;
+//! * buffered bytes never exceed `max_buffer_size`; the limit is reported
+//!   only when reached;
+//! * wake rule: when a blocked inner future is released, every entry point of
+//!   that half whose last poll returned `Pending` is woken.
+//!
+//! One program text is driven exhaustively (odometer over all choice
+//! sequences, iterative deepening over the number of calls so that the first
+//! violation of a class is a shortest one) and by seeded random choices with
+//! larger bounds.
 
-use vcommon::Args;
+use std::{
+    cell::RefCell,
+    future::Future,
+    io::{self, BufRead, Read, Write},
+    mem::MaybeUninit,
+    pin::{Pin, pin},
+    rc::Rc,
+    sync::Arc,
+    task::{Context, Poll, Waker},
+};
 
-pub fn main(_args: &Args) {
-    eprintln!("c12: not implemented");
-    std::process::exit(3);
+use compio_buf::{BufResult, IoBuf, IoBufMut, SetLenExt};
+use compio_io::{
+    AsyncRead, AsyncWrite,
+    compat::{AsyncStream, SyncStream},
+};
+use futures_util::io::{AsyncBufRead as FBufRead, AsyncRead as FRead, AsyncWrite as FWrite};
+use vcommon::{
+    Args, Report, Rng, Value, json, panics,
+    task::{CountWaker, count_waker},
+};
+
+use crate::choose::{Chooser, Odometer, RandomChooser, ReplayChooser};
+
+// ---------------------------------------------------------------------------
+// Choice source (thread-local so that the inner stream, which lives inside
+// the adapter, draws its transfer atoms from the same sequence)
+// ---------------------------------------------------------------------------
+
+enum Src {
+    Od(Odometer),
+    Rnd(RandomChooser),
+    Rep(ReplayChooser),
+}
+
+impl Src {
+    fn ch(&mut self) -> &mut dyn Chooser {
+        match self {
+            Src::Od(c) => c,
+            Src::Rnd(c) => c,
+            Src::Rep(c) => c,
+        }
+    }
+}
+
+thread_local! {
+    static CH: RefCell<Option<Src>> = const { RefCell::new(None) };
+}
+
+fn choose(n: usize) -> usize {
+    CH.with(|c| c.borrow_mut().as_mut().expect("chooser installed").ch().choose(n))
+}
+
+fn ch_trace() -> Vec<usize> {
+    CH.with(|c| c.borrow_mut().as_mut().expect("chooser installed").ch().trace())
+}
+
+fn install(s: Src) {
+    CH.with(|c| *c.borrow_mut() = Some(s));
+}
+
+fn uninstall() -> Src {
+    CH.with(|c| c.borrow_mut().take().expect("chooser installed"))
+}
+
+// ---------------------------------------------------------------------------
+// Parameters of a program family
+// ---------------------------------------------------------------------------
+
+#[derive(Clone, Debug)]
+struct Params {
+    mode: String,
+    max_ops: usize,
+    /// Budget of non-benign inner transfer atoms per program.
+    max_atoms: usize,
+    /// Bytes the read side produces before its natural EOF (upper bound).
+    payload: usize,
+    bases: Vec<usize>,
+    maxes: Vec<usize>,
+    rsizes: Vec<usize>,
+    wsizes: Vec<usize>,
+    /// Random-mode extras: both directions in one program, fresh wakers,
+    /// several error kinds, arbitrary short transfers, `Write::flush`,
+    /// dropping the adapter with futures in flight.
+    rich: bool,
+    /// Restrict to adapters: bit 0 sync, bit 1 poll.
+    adapters: usize,
+    /// Restrict directions: bit 0 read side, bit 1 write side (rich mode adds both-in-one when 3).
+    dirs: usize,
+    /// Inner calls may return Pending.
+    pend: bool,
+    /// Sharding decision after this many calls.
+    own_after: usize,
+}
+
+impl Params {
+    fn to_json(&self) -> Value {
+        json!({"mode": self.mode, "max_ops": self.max_ops, "max_atoms": self.max_atoms, "payload": self.payload,
+               "bases": self.bases, "maxes": self.maxes, "rsizes": self.rsizes, "wsizes": self.wsizes,
+               "rich": self.rich, "adapters": self.adapters, "dirs": self.dirs, "pend": self.pend})
+    }
+
+    fn from_json(v: &Value) -> Self {
+        let list = |k: &str, d: &[usize]| -> Vec<usize> {
+            v[k].as_array()
+                .map(|a| a.iter().map(|x| x.as_u64().unwrap_or(1) as usize).collect())
+                .unwrap_or_else(|| d.to_vec())
+        };
+        Self {
+            mode: "replay".into(),
+            max_ops: v["max_ops"].as_u64().unwrap_or(4) as usize,
+            max_atoms: v["max_atoms"].as_u64().unwrap_or(3) as usize,
+            payload: v["payload"].as_u64().unwrap_or(12) as usize,
+            bases: list("bases", &[1, 2, 4]),
+            maxes: list("maxes", &[4, 8]),
+            rsizes: list("rsizes", &[1, 3]),
+            wsizes: list("wsizes", &[1, 3, 5]),
+            rich: v["rich"].as_bool().unwrap_or(false),
+            adapters: v["adapters"].as_u64().unwrap_or(3) as usize,
+            dirs: v["dirs"].as_u64().unwrap_or(3) as usize,
+            pend: v["pend"].as_bool().unwrap_or(true),
+            own_after: usize::MAX,
+        }
+    }
+}
+
+// ---------------------------------------------------------------------------
+// Scripted, recording inner stream
+// ---------------------------------------------------------------------------
+
+const R: usize = 0;
+const W: usize = 1;
+
+#[derive(Clone, Copy, Debug, PartialEq, Eq)]
+enum InnerOp {
+    Read,
+    Write,
+    Flush,
+    Shutdown,
+}
+
+impl InnerOp {
+    fn half(self) -> usize {
+        if self == InnerOp::Read { R } else { W }
+    }
+
+    fn name(self) -> &'static str {
+        match self {
+            InnerOp::Read => "read",
+            InnerOp::Write => "write",
+            InnerOp::Flush => "flush",
+            InnerOp::Shutdown => "shutdown",
+        }
+    }
+}
+
+#[derive(Clone, Copy, Debug)]
+enum Atom {
+    /// read: hand over up to n bytes
+    Give(usize),
+    Eof,
+    Fail(io::ErrorKind),
+    Pend,
+    /// write: take up to n bytes
+    Accept(usize),
+    /// flush / shutdown succeed
+    Done,
+}
+
+// classes of inner behaviour observed (bit numbers), part of the eval signature
+const CLASS_NAMES: [&str; 20] = [
+    "give-all", "give-short", "eof", "eof-early", "rpend", "rerr", "accept-all", "accept-short", "accept-0", "wpend",
+    "werr", "flush-ok", "flush-pend", "flush-err", "shut-ok", "shut-pend", "shut-err", "data-after-eof",
+    "broken-pipe", "zero-cap-read",
+];
+const C_GIVE_ALL: u32 = 0;
+const C_GIVE_SHORT: u32 = 1;
+const C_EOF: u32 = 2;
+const C_EOF_EARLY: u32 = 3;
+const C_RPEND: u32 = 4;
+const C_RERR: u32 = 5;
+const C_ACC_ALL: u32 = 6;
+const C_ACC_SHORT: u32 = 7;
+const C_ACC_ZERO: u32 = 8;
+const C_WPEND: u32 = 9;
+const C_WERR: u32 = 10;
+const C_FLUSH: u32 = 11; // +0 ok, +1 pend, +2 err
+const C_SHUT: u32 = 14; // +0 ok, +1 pend, +2 err
+const C_AFTER_EOF: u32 = 17;
+const C_BROKEN_PIPE: u32 = 18;
+const C_ZERO_CAP: u32 = 19;
+
+const ERR_KINDS: [io::ErrorKind; 4] = [
+    io::ErrorKind::Other,
+    io::ErrorKind::Interrupted,
+    io::ErrorKind::ConnectionReset,
+    io::ErrorKind::TimedOut,
+];
+
+fn rbyte(i: usize) -> u8 {
+    (i as u8).wrapping_add(1)
+}
+
+fn wbyte(i: usize) -> u8 {
+    (i as u8).wrapping_mul(3).wrapping_add(0x80)
+}
+
+struct State {
+    rich: bool,
+    pend: bool,
+    payload: usize,
+    atoms_left: usize,
+    benign: bool,
+    // recording
+    produced: Vec<u8>,
+    received: Vec<u8>,
+    eof_returned: usize,
+    read_calls: usize,
+    write_calls: usize,
+    flush_done: usize,
+    shut: bool,
+    classes: u32,
+    // per adapter call
+    errs: Vec<io::ErrorKind>,
+    errs_total: usize,
+    zero_write: bool,
+    // Pending machinery: one gate per half
+    blocked: [bool; 2],
+    blocked_op: [InnerOp; 2],
+    waker: [Option<Waker>; 2],
+    log: Option<Rc<RefCell<Vec<String>>>>,
+}
+
+macro_rules! lg {
+    ($st:expr, $($a:tt)*) => {
+        if let Some(l) = $st.log.as_ref() {
+            let s = format!($($a)*);
+            l.borrow_mut().push(s);
+        }
+    };
+}
+
+impl State {
+    fn class(&mut self, c: u32) {
+        self.classes |= 1 << c;
+    }
+
+    fn clear_call(&mut self) {
+        self.errs.clear();
+        self.zero_write = false;
+    }
+
+    fn err_kind(&mut self) -> io::ErrorKind {
+        if self.rich { ERR_KINDS[choose(ERR_KINDS.len())] } else { io::ErrorKind::Other }
+    }
+
+    /// The next transfer atom for an inner call, drawn lazily from the choice
+    /// source while the budget of non-benign atoms lasts.
+    fn next_atom(&mut self, op: InnerOp, arg: usize) -> Atom {
+        let free = !self.benign && self.atoms_left > 0;
+        let mut opts: [Atom; 7] = [Atom::Done; 7];
+        let mut n = 0;
+        let mut push = |a: Atom| {
+            opts[n] = a;
+            n += 1;
+        };
+        match op {
+            InnerOp::Read => {
+                if self.eof_returned > 0 {
+                    // A stream that comes back to life: only an adapter whose
+                    // EOF is not sticky will ever get here.
+                    return Atom::Give(1);
+                }
+                let remaining = self.payload.saturating_sub(self.produced.len());
+                let natural = if remaining > 0 { Atom::Give(usize::MAX) } else { Atom::Eof };
+                if !free {
+                    return natural;
+                }
+                let room = remaining.min(arg);
+                push(natural);
+                if self.rich {
+                    if room > 1 {
+                        push(Atom::Give(0)); // resolved below
+                    }
+                } else {
+                    if room > 1 {
+                        push(Atom::Give(1));
+                    }
+                    if room > 2 {
+                        push(Atom::Give(2));
+                    }
+                }
+                if self.pend {
+                    push(Atom::Pend);
+                }
+                push(Atom::Fail(io::ErrorKind::Other));
+                if remaining > 0 && (!self.rich || choose(4) == 0) {
+                    push(Atom::Eof);
+                }
+                let mut a = opts[choose(n)];
+                if let Atom::Give(0) = a {
+                    a = Atom::Give(1 + choose(room - 1));
+                }
+                self.finish_atom(a, n)
+            }
+            InnerOp::Write => {
+                if !free {
+                    return Atom::Accept(usize::MAX);
+                }
+                push(Atom::Accept(usize::MAX));
+                if arg > 1 {
+                    push(Atom::Accept(if self.rich { 0 } else { 1 }));
+                }
+                if self.pend {
+                    push(Atom::Pend);
+                }
+                push(Atom::Fail(io::ErrorKind::Other));
+                if !self.rich || choose(4) == 0 {
+                    push(Atom::Accept(0));
+                }
+                let idx = choose(n);
+                let mut a = opts[idx];
+                if self.rich && idx == 1 && arg > 1 {
+                    a = Atom::Accept(1 + choose(arg - 1));
+                }
+                self.finish_atom(a, n)
+            }
+            InnerOp::Flush | InnerOp::Shutdown => {
+                if !free {
+                    return Atom::Done;
+                }
+                push(Atom::Done);
+                if self.pend {
+                    push(Atom::Pend);
+                }
+                push(Atom::Fail(io::ErrorKind::Other));
+                let a = opts[choose(n)];
+                self.finish_atom(a, n)
+            }
+        }
+    }
+
+    fn finish_atom(&mut self, a: Atom, _n: usize) -> Atom {
+        match a {
+            Atom::Give(usize::MAX) | Atom::Accept(usize::MAX) | Atom::Done => a,
+            Atom::Eof if self.payload <= self.produced.len() => a,
+            Atom::Fail(_) => {
+                self.atoms_left -= 1;
+                Atom::Fail(self.err_kind())
+            }
+            _ => {
+                self.atoms_left -= 1;
+                a
+            }
+        }
+    }
+
+    /// Harness action: the blocked inner future of `half` may now proceed.
+    fn release(st: &Rc<RefCell<State>>, half: usize) {
+        let w = {
+            let mut s = st.borrow_mut();
+            s.blocked[half] = false;
+            let op = s.blocked_op[half];
+            lg!(s, "  release inner.{}", op.name());
+            s.waker[half].take()
+        };
+        if let Some(w) = w {
+            w.wake();
+        }
+    }
+}
+
+type Shared = Rc<RefCell<State>>;
+
+/// The point at which an inner call decides its outcome; `Pending` until
+/// released when the atom says so.
+struct Gate {
+    st: Shared,
+    op: InnerOp,
+    arg: usize,
+}
+
+impl Future for Gate {
+    type Output = Atom;
+
+    fn poll(self: Pin<&mut Self>, cx: &mut Context<'_>) -> Poll<Atom> {
+        let half = self.op.half();
+        let mut s = self.st.borrow_mut();
+        if s.blocked[half] {
+            // still waiting: keep the most recent waker
+            let w = cx.waker().clone();
+            s.waker[half] = Some(w);
+            return Poll::Pending;
+        }
+        let a = s.next_atom(self.op, self.arg);
+        if let Atom::Pend = a {
+            s.blocked[half] = true;
+            s.blocked_op[half] = self.op;
+            let w = cx.waker().clone();
+            s.waker[half] = Some(w);
+            s.class(match self.op {
+                InnerOp::Read => C_RPEND,
+                InnerOp::Write => C_WPEND,
+                InnerOp::Flush => C_FLUSH + 1,
+                InnerOp::Shutdown => C_SHUT + 1,
+            });
+            lg!(s, "  inner.{} -> Pending", self.op.name());
+            return Poll::Pending;
+        }
+        Poll::Ready(a)
+    }
+}
+
+#[derive(Clone)]
+struct Scripted(Shared);
+
+impl Scripted {
+    fn gate(&self, op: InnerOp, arg: usize) -> Gate {
+        Gate {
+            st: self.0.clone(),
+            op,
+            arg,
+        }
+    }
+}
+
+impl AsyncRead for Scripted {
+    async fn read<B: IoBufMut>(&mut self, mut buf: B) -> BufResult<usize, B> {
+        let cap = buf.as_uninit().len();
+        self.0.borrow_mut().read_calls += 1;
+        if cap == 0 {
+            let mut s = self.0.borrow_mut();
+            s.class(C_ZERO_CAP);
+            lg!(s, "  inner.read(cap 0) -> Ok(0) (not an EOF)");
+            return BufResult(Ok(0), buf);
+        }
+        let atom = self.gate(InnerOp::Read, cap).await;
+        let mut s = self.0.borrow_mut();
+        match atom {
+            Atom::Give(k) => {
+                let after_eof = s.eof_returned > 0;
+                let remaining = if after_eof { 1 } else { s.payload.saturating_sub(s.produced.len()) };
+                let n = k.min(cap).min(remaining);
+                let un = buf.as_uninit();
+                for slot in un.iter_mut().take(n) {
+                    let b = rbyte(s.produced.len());
+                    *slot = MaybeUninit::new(b);
+                    s.produced.push(b);
+                }
+                // SAFETY: n <= capacity and the first n bytes were just written.
+                unsafe { buf.advance_to(n) };
+                s.class(if after_eof {
+                    C_AFTER_EOF
+                } else if k == usize::MAX {
+                    C_GIVE_ALL
+                } else {
+                    C_GIVE_SHORT
+                });
+                lg!(s, "  inner.read(cap {cap}) -> Ok({n})");
+                BufResult(Ok(n), buf)
+            }
+            Atom::Eof => {
+                let early = s.payload > s.produced.len();
+                s.class(if early { C_EOF_EARLY } else { C_EOF });
+                s.payload = s.produced.len();
+                s.eof_returned += 1;
+                lg!(s, "  inner.read(cap {cap}) -> Ok(0) EOF");
+                BufResult(Ok(0), buf)
+            }
+            Atom::Fail(k) => {
+                s.errs.push(k);
+                s.errs_total += 1;
+                s.class(C_RERR);
+                lg!(s, "  inner.read(cap {cap}) -> Err({k:?})");
+                BufResult(Err(io::Error::new(k, "scripted read error")), buf)
+            }
+            other => panic!("C12 harness: atom {other:?} for read"),
+        }
+    }
+}
+
+impl AsyncWrite for Scripted {
+    async fn write<T: IoBuf>(&mut self, buf: T) -> BufResult<usize, T> {
+        let len = buf.as_init().len();
+        {
+            let mut s = self.0.borrow_mut();
+            s.write_calls += 1;
+            if s.shut {
+                s.errs.push(io::ErrorKind::BrokenPipe);
+                s.errs_total += 1;
+                s.class(C_BROKEN_PIPE);
+                lg!(s, "  inner.write(len {len}) after shutdown -> Err(BrokenPipe)");
+                return BufResult(Err(io::Error::new(io::ErrorKind::BrokenPipe, "written after shutdown")), buf);
+            }
+        }
+        let atom = self.gate(InnerOp::Write, len).await;
+        let mut s = self.0.borrow_mut();
+        match atom {
+            Atom::Accept(k) => {
+                let n = k.min(len);
+                s.received.extend_from_slice(&buf.as_init()[..n]);
+                if n == 0 && len > 0 {
+                    s.zero_write = true;
+                }
+                s.class(if k == usize::MAX {
+                    C_ACC_ALL
+                } else if k == 0 {
+                    C_ACC_ZERO
+                } else {
+                    C_ACC_SHORT
+                });
+                lg!(s, "  inner.write(len {len}) -> Ok({n})");
+                BufResult(Ok(n), buf)
+            }
+            Atom::Fail(k) => {
+                s.errs.push(k);
+                s.errs_total += 1;
+                s.class(C_WERR);
+                lg!(s, "  inner.write(len {len}) -> Err({k:?})");
+                BufResult(Err(io::Error::new(k, "scripted write error")), buf)
+            }
+            other => panic!("C12 harness: atom {other:?} for write"),
+        }
+    }
+
+    async fn flush(&mut self) -> io::Result<()> {
+        let atom = self.gate(InnerOp::Flush, 0).await;
+        let mut s = self.0.borrow_mut();
+        match atom {
+            Atom::Done => {
+                s.flush_done += 1;
+                s.class(C_FLUSH);
+                lg!(s, "  inner.flush -> Ok");
+                Ok(())
+            }
+            Atom::Fail(k) => {
+                s.errs.push(k);
+                s.errs_total += 1;
+                s.class(C_FLUSH + 2);
+                lg!(s, "  inner.flush -> Err({k:?})");
+                Err(io::Error::new(k, "scripted flush error"))
+            }
+            other => panic!("C12 harness: atom {other:?} for flush"),
+        }
+    }
+
+    async fn shutdown(&mut self) -> io::Result<()> {
+        let atom = self.gate(InnerOp::Shutdown, 0).await;
+        let mut s = self.0.borrow_mut();
+        match atom {
+            Atom::Done => {
+                s.shut = true;
+                s.class(C_SHUT);
+                lg!(s, "  inner.shutdown -> Ok");
+                Ok(())
+            }
+            Atom::Fail(k) => {
+                s.errs.push(k);
+                s.errs_total += 1;
+                s.class(C_SHUT + 2);
+                lg!(s, "  inner.shutdown -> Err({k:?})");
+                Err(io::Error::new(k, "scripted shutdown error"))
+            }
+            other => panic!("C12 harness: atom {other:?} for shutdown"),
+        }
+    }
+}
+
+// ---------------------------------------------------------------------------
+// Verdict plumbing
+// ---------------------------------------------------------------------------
+
+struct Fail {
+    sig: String,
+    what: String,
+}
+
+fn fail<T>(rule: &str, ad: &str, at: &str, what: String) -> Result<T, Fail> {
+    Err(Fail {
+        sig: format!("C12/{rule}/{ad}/{at}"),
+        what,
+    })
+}
+
+enum Outcome {
+    Skip,
+    Done { sig: String, trivial: bool },
+    Fail(Fail),
+}
+
+// ---------------------------------------------------------------------------
+// The program
+// ---------------------------------------------------------------------------
+
+const ENTRY: [&str; 6] = ["poll_read", "poll_read_uninit", "poll_fill_buf", "poll_write", "poll_flush", "poll_close"];
+
+// harness-side entry points used (bit numbers), part of the eval signature
+const OP_NAMES: [&str; 16] = [
+    "read", "fill_buf", "consume", "read_buf_uninit", "fill_read_buf", "write", "flush", "flush_write_buf",
+    "into_parts", "poll_read", "poll_read_uninit", "poll_fill_buf", "poll_write", "poll_flush", "poll_close",
+    "release",
+];
+const O_READ: u32 = 0;
+const O_FILL_BUF: u32 = 1;
+const O_CONSUME: u32 = 2;
+const O_READ_UNINIT: u32 = 3;
+const O_FILL_READ_BUF: u32 = 4;
+const O_WRITE: u32 = 5;
+const O_FLUSH: u32 = 6;
+const O_FLUSH_WRITE_BUF: u32 = 7;
+const O_INTO_PARTS: u32 = 8;
+const O_POLL: u32 = 9; // + entry index
+const O_RELEASE: u32 = 15;
+
+#[derive(Clone, Copy, Debug)]
+enum Op {
+    Read(usize),
+    FillBuf,
+    ReadUninit(usize),
+    FillReadBuf,
+    Write(usize),
+    Flush,
+    FlushWriteBuf,
+    Poll(usize, usize),
+    Release(usize),
+}
+
+struct Entry {
+    cw: Arc<CountWaker>,
+    waker: Waker,
+    /// Last poll through this entry point returned `Pending`.
+    pending: bool,
+    /// Wake count at the time of that `Pending`.
+    count_at: usize,
+}
+
+impl Entry {
+    fn new() -> Self {
+        let (cw, waker) = count_waker();
+        Self {
+            cw,
+            waker,
+            pending: false,
+            count_at: 0,
+        }
+    }
+}
+
+enum Adapter {
+    Sync(Option<SyncStream<Scripted>>),
+    Poll(Pin<Box<AsyncStream<(Scripted, Scripted)>>>),
+}
+
+struct Run<'a> {
+    p: &'a Params,
+    st: Shared,
+    ad: Adapter,
+    ad_name: &'static str,
+    dir: usize, // 0 R, 1 W, 2 both
+    base: usize,
+    max: usize,
+    // model
+    handed: usize,
+    accepted: Vec<u8>,
+    reported_eof: bool,
+    close_started: bool,
+    closed_ok: bool,
+    seen_shut: bool,
+    /// A write was accepted while an earlier flush future was still in flight.
+    wrote_inflight: bool,
+    /// Model of "the write half has a boxed future in flight": set by a
+    /// `Pending` of any write-half entry point, cleared when a later call
+    /// demonstrably drove it to completion.
+    w_inflight: bool,
+    entries: Vec<Entry>,
+    // coverage
+    ops: u32,
+    limit_hit: bool,
+    saw_wb: bool,
+    saw_pending: bool,
+    stale_wakers: usize,
+}
+
+/// Poll a future of the sync adapter's async half to completion, releasing
+/// the inner stream whenever it blocks (and checking that the task is woken).
+fn drive<F: Future>(st: &Shared, f: F, half: usize, at: &str) -> Result<F::Output, Fail> {
+    let (cw, w) = count_waker();
+    let mut cx = Context::from_waker(&w);
+    let mut f = pin!(f);
+    for _ in 0..4096 {
+        match f.as_mut().poll(&mut cx) {
+            Poll::Ready(v) => return Ok(v),
+            Poll::Pending => {
+                if !st.borrow().blocked[half] {
+                    return fail(
+                        "hang",
+                        "sync",
+                        at,
+                        format!("{at}() returned Pending although the inner stream has no blocked call"),
+                    );
+                }
+                let before = cw.count();
+                let op = st.borrow().blocked_op[half];
+                State::release(st, half);
+                if cw.count() == before {
+                    return fail(
+                        "lost-wake",
+                        "sync",
+                        &format!("{at}/inner-{}", op.name()),
+                        format!("the task awaiting {at}() was not woken when the inner {} made progress", op.name()),
+                    );
+                }
+            }
+        }
+    }
+    Err(Fail {
+        sig: "inconclusive".into(),
+        what: format!("{at}: more than 4096 Pending rounds"),
+    })
+}
+
+impl<'a> Run<'a> {
+    fn avail(&self) -> usize {
+        self.st.borrow().produced.len() - self.handed
+    }
+
+    fn pending_w(&self) -> usize {
+        self.accepted.len().saturating_sub(self.st.borrow().received.len())
+    }
+
+    fn eof(&self) -> bool {
+        self.st.borrow().eof_returned > 0
+    }
+
+    fn op(&mut self, o: u32) {
+        self.ops |= 1 << o;
+    }
+
+    fn log(&self, s: impl FnOnce() -> String) {
+        let st = self.st.borrow();
+        if let Some(l) = st.log.as_ref() {
+            l.borrow_mut().push(s());
+        }
+    }
+
+    // ---- read-side oracles ------------------------------------------------
+
+    /// `d` was handed to the caller (consumed).
+    fn hand_out(&mut self, at: &str, d: &[u8]) -> Result<(), Fail> {
+        let st = self.st.borrow();
+        let p = &st.produced;
+        if self.handed + d.len() > p.len() || p[self.handed..self.handed + d.len()] != *d {
+            return fail(
+                "fifo-read",
+                self.ad_name,
+                at,
+                format!(
+                    "{at} handed out {:?} but the next unread bytes the inner stream produced are {:?}",
+                    d,
+                    &p[self.handed.min(p.len())..]
+                ),
+            );
+        }
+        drop(st);
+        self.handed += d.len();
+        Ok(())
+    }
+
+    /// Common oracle for read-like calls with a caller buffer of `k` bytes.
+    fn check_read(&mut self, at: &str, k: usize, r: io::Result<Vec<u8>>, avail_before: usize, eof_before: bool) -> Result<(), Fail> {
+        match r {
+            Ok(d) => {
+                if d.len() > k {
+                    return fail("over-read", self.ad_name, at, format!("{at} returned {} for a buffer of {k}", d.len()));
+                }
+                self.hand_out(at, &d)?;
+                if d.is_empty() && k > 0 {
+                    let avail = self.avail();
+                    if avail > 0 || !self.eof() {
+                        return fail(
+                            "premature-eof",
+                            self.ad_name,
+                            at,
+                            format!("{at} returned 0 (EOF) with {avail} produced bytes not handed out, inner EOF seen: {}", self.eof()),
+                        );
+                    }
+                    self.reported_eof = true;
+                } else if !d.is_empty() && self.reported_eof {
+                    return fail("eof-not-sticky", self.ad_name, at, format!("{at} handed out data after the adapter had reported EOF"));
+                }
+                Ok(())
+            }
+            Err(e) if e.kind() == io::ErrorKind::WouldBlock && matches!(self.ad, Adapter::Sync(_)) => {
+                self.saw_wb = true;
+                if self.reported_eof {
+                    return fail("eof-not-sticky", self.ad_name, at, format!("{at} returned WouldBlock after the adapter had reported EOF"));
+                }
+                if k > 0 && (avail_before > 0 || eof_before) {
+                    return fail(
+                        "spurious-wouldblock",
+                        self.ad_name,
+                        at,
+                        format!("{at} returned WouldBlock with {avail_before} bytes buffered, eof={eof_before}: progress was possible"),
+                    );
+                }
+                Ok(())
+            }
+            Err(e) => self.check_err(at, &e),
+        }
+    }
+
+    /// An error surfaced by the adapter must be one the inner stream raised
+    /// during this very call.
+    fn check_err(&mut self, at: &str, e: &io::Error) -> Result<(), Fail> {
+        let st = self.st.borrow();
+        let k = e.kind();
+        if st.errs.contains(&k) || (k == io::ErrorKind::WriteZero && st.zero_write) {
+            return Ok(());
+        }
+        fail(
+            "unexpected-error",
+            self.ad_name,
+            &format!("{at}/{k:?}"),
+            format!("{at} failed with {k:?} ({e}) which the inner stream did not raise during this call"),
+        )
+    }
+
+    /// `fill_buf`-like result; then consume a chosen amount.
+    fn check_fill_buf(&mut self, at: &str, r: io::Result<Vec<u8>>, avail_before: usize, eof_before: bool) -> Result<Option<usize>, Fail> {
+        match r {
+            Ok(d) => {
+                {
+                    let st = self.st.borrow();
+                    if !st.produced[self.handed..].starts_with(&d) {
+                        return fail(
+                            "fifo-read",
+                            self.ad_name,
+                            at,
+                            format!("{at} exposes {:?} but the unread bytes are {:?}", d, &st.produced[self.handed..]),
+                        );
+                    }
+                }
+                if d.is_empty() {
+                    let avail = self.avail();
+                    if avail > 0 || !self.eof() {
+                        return fail(
+                            "premature-eof",
+                            self.ad_name,
+                            at,
+                            format!("{at} returned an empty slice (EOF) with {avail} bytes not handed out, inner EOF seen: {}", self.eof()),
+                        );
+                    }
+                    self.reported_eof = true;
+                } else if self.reported_eof {
+                    return fail("eof-not-sticky", self.ad_name, at, format!("{at} exposed data after the adapter had reported EOF"));
+                }
+                // consume: 0, 1, len-1, len (all amounts in rich mode)
+                let len = d.len();
+                let j = if self.p.rich {
+                    choose(len + 1)
+                } else {
+                    let mut c = vec![0, 1.min(len), len.saturating_sub(1), len];
+                    c.dedup();
+                    c[choose(c.len())]
+                };
+                Ok(Some(j))
+            }
+            Err(e) if e.kind() == io::ErrorKind::WouldBlock && matches!(self.ad, Adapter::Sync(_)) => {
+                self.saw_wb = true;
+                if self.reported_eof {
+                    return fail("eof-not-sticky", self.ad_name, at, format!("{at} returned WouldBlock after the adapter had reported EOF"));
+                }
+                if avail_before > 0 || eof_before {
+                    return fail(
+                        "spurious-wouldblock",
+                        self.ad_name,
+                        at,
+                        format!("{at} returned WouldBlock with {avail_before} bytes buffered, eof={eof_before}"),
+                    );
+                }
+                Ok(None)
+            }
+            Err(e) => self.check_err(at, &e).map(|_| None),
+        }
+    }
+
+    // ---- write-side oracles -----------------------------------------------
+
+    fn data(&self, m: usize) -> Vec<u8> {
+        (0..m).map(|i| wbyte(self.accepted.len() + i)).collect()
+    }
+
+    fn check_write(&mut self, at: &str, data: &[u8], r: io::Result<usize>, pending_before: usize) -> Result<(), Fail> {
+        let m = data.len();
+        match r {
+            Ok(n) => {
+                if n > m {
+                    return fail("over-accept", self.ad_name, at, format!("{at} returned {n} for {m} bytes"));
+                }
+                if n == 0 && m > 0 {
+                    return fail("write-accepted-zero", self.ad_name, at, format!("{at} returned Ok(0) for {m} bytes"));
+                }
+                if n < m {
+                    self.limit_hit = true;
+                }
+                self.accepted.extend_from_slice(&data[..n]);
+                Ok(())
+            }
+            Err(e) if e.kind() == io::ErrorKind::WouldBlock && matches!(self.ad, Adapter::Sync(_)) => {
+                self.saw_wb = true;
+                if pending_before >= self.max {
+                    self.limit_hit = true;
+                }
+                if pending_before == 0 {
+                    return fail(
+                        "spurious-wouldblock",
+                        self.ad_name,
+                        at,
+                        format!("{at} returned WouldBlock ({e}) with nothing buffered: flush_write_buf cannot make progress either"),
+                    );
+                }
+                Ok(())
+            }
+            Err(e) => self.check_err(at, &e),
+        }
+    }
+
+    fn cond(&self) -> &'static str {
+        if self.wrote_inflight { "write-accepted-during-inflight-flush" } else { "plain" }
+    }
+
+    fn check_flushed(&mut self, at: &str) -> Result<(), Fail> {
+        let pend = self.pending_w();
+        if pend > 0 {
+            return fail(
+                "flush-incomplete",
+                self.ad_name,
+                &format!("{at}/{}", self.cond()),
+                format!("{at} reported success but {pend} accepted bytes have not reached the inner stream"),
+            );
+        }
+        Ok(())
+    }
+
+    // ---- invariants after every call --------------------------------------
+
+    fn after(&mut self, at: &str) -> Result<(), Fail> {
+        let (avail, pend, shut) = {
+            let st = self.st.borrow();
+            if !self.accepted.starts_with(&st.received) {
+                return fail(
+                    "fifo-write",
+                    self.ad_name,
+                    at,
+                    format!(
+                        "after {at}: the inner stream received {:?} which is not a prefix of the accepted bytes {:?}",
+                        st.received, self.accepted
+                    ),
+                );
+            }
+            (st.produced.len() - self.handed, self.accepted.len() - st.received.len(), st.shut)
+        };
+        if avail > self.max {
+            self.limit_hit = true;
+            return fail(
+                "limit-exceeded",
+                self.ad_name,
+                "read-buffer",
+                format!("after {at}: {avail} bytes buffered on the read side, max_buffer_size is {} (base {})", self.max, self.base),
+            );
+        }
+        if pend > self.max {
+            self.limit_hit = true;
+            return fail(
+                "limit-exceeded",
+                self.ad_name,
+                "write-buffer",
+                format!("after {at}: {pend} bytes buffered on the write side, max_buffer_size is {}", self.max),
+            );
+        }
+        if shut && !self.seen_shut {
+            self.seen_shut = true;
+            if pend > 0 {
+                return fail(
+                    "shutdown-before-flush",
+                    self.ad_name,
+                    &format!("{at}/{}", self.cond()),
+                    format!("the inner stream was shut down while {pend} accepted bytes were still buffered"),
+                );
+            }
+        }
+        if let Adapter::Sync(Some(s)) = &self.ad {
+            let model_eof = self.st.borrow().eof_returned > 0;
+            if s.is_eof() != model_eof {
+                return fail("is_eof-mismatch", "sync", at, format!("after {at}: is_eof() = {} but inner EOF seen = {model_eof}", s.is_eof()));
+            }
+            if s.has_pending_write() != (pend > 0) {
+                return fail(
+                    "has_pending_write-mismatch",
+                    "sync",
+                    at,
+                    format!("after {at}: has_pending_write() = {} but {pend} accepted bytes are unsent", s.has_pending_write()),
+                );
+            }
+        }
+        Ok(())
+    }
+
+    // ---- the calls ----------------------------------------------------------
+
+    fn menu(&self) -> Vec<Op> {
+        let mut m = Vec::with_capacity(12);
+        let p = self.p;
+        let rd = self.dir != 1;
+        let wr = self.dir != 0;
+        match &self.ad {
+            Adapter::Sync(_) => {
+                if rd {
+                    for k in &p.rsizes {
+                        m.push(Op::Read(*k));
+                    }
+                    m.push(Op::FillBuf);
+                    m.push(Op::ReadUninit(2));
+                    m.push(Op::FillReadBuf);
+                }
+                if wr {
+                    for k in &p.wsizes {
+                        m.push(Op::Write(*k));
+                    }
+                    if p.rich {
+                        m.push(Op::Flush);
+                    }
+                    m.push(Op::FlushWriteBuf);
+                }
+            }
+            Adapter::Poll(_) => {
+                let st = self.st.borrow();
+                if rd {
+                    for k in &p.rsizes {
+                        m.push(Op::Poll(0, *k));
+                    }
+                    m.push(Op::Poll(1, 2));
+                    m.push(Op::Poll(2, 0));
+                    if st.blocked[R] {
+                        m.push(Op::Release(R));
+                    }
+                }
+                if wr {
+                    if !self.close_started {
+                        for k in &p.wsizes {
+                            m.push(Op::Poll(3, *k));
+                        }
+                    }
+                    m.push(Op::Poll(4, 0));
+                    m.push(Op::Poll(5, 0));
+                    if st.blocked[W] {
+                        m.push(Op::Release(W));
+                    }
+                }
+            }
+        }
+        m
+    }
+
+    fn exec(&mut self, op: Op) -> Result<&'static str, Fail> {
+        let at = match op {
+            Op::Read(_) => "read",
+            Op::FillBuf => "fill_buf",
+            Op::ReadUninit(_) => "read_buf_uninit",
+            Op::FillReadBuf => "fill_read_buf",
+            Op::Write(_) => "write",
+            Op::Flush => "flush",
+            Op::FlushWriteBuf => "flush_write_buf",
+            Op::Poll(e, _) => ENTRY[e],
+            Op::Release(_) => "release",
+        };
+        CUR.with(|c| c.set((self.ad_name, at, self.cond())));
+        match op {
+            Op::Read(k) => {
+                self.op(O_READ);
+                let (a, e) = (self.avail(), self.eof());
+                let mut buf = vec![0u8; k];
+                self.st.borrow_mut().clear_call();
+                let Adapter::Sync(Some(s)) = &mut self.ad else { unreachable!() };
+                let r = s.read(&mut buf).map(|n| (buf[..n.min(k)].to_vec(), n));
+                self.log(|| format!("read({k}) -> {r:?}"));
+                let r = unwrap_len("read", "sync", k, r)?;
+                self.check_read("read", k, r, a, e)?;
+                Ok("read")
+            }
+            Op::ReadUninit(k) => {
+                self.op(O_READ_UNINIT);
+                let (a, e) = (self.avail(), self.eof());
+                let mut buf = vec![MaybeUninit::<u8>::uninit(); k];
+                self.st.borrow_mut().clear_call();
+                let Adapter::Sync(Some(s)) = &mut self.ad else { unreachable!() };
+                let r = s.read_buf_uninit(&mut buf).map(|n| {
+                    // SAFETY: the adapter claims the first n bytes are initialised (Miri checks the claim).
+                    (buf[..n.min(k)].iter().map(|b| unsafe { b.assume_init() }).collect::<Vec<u8>>(), n)
+                });
+                self.log(|| format!("read_buf_uninit({k}) -> {r:?}"));
+                let r = unwrap_len("read_buf_uninit", "sync", k, r)?;
+                self.check_read("read_buf_uninit", k, r, a, e)?;
+                Ok("read_buf_uninit")
+            }
+            Op::FillBuf => {
+                self.op(O_FILL_BUF);
+                let (a, e) = (self.avail(), self.eof());
+                self.st.borrow_mut().clear_call();
+                let Adapter::Sync(Some(s)) = &mut self.ad else { unreachable!() };
+                let r = s.fill_buf().map(|d| d.to_vec());
+                self.log(|| format!("fill_buf() -> {r:?}"));
+                if let Some(j) = self.check_fill_buf("fill_buf", r, a, e)? {
+                    self.op(O_CONSUME);
+                    let Adapter::Sync(Some(s)) = &mut self.ad else { unreachable!() };
+                    s.consume(j);
+                    self.handed += j;
+                    self.log(|| format!("consume({j})"));
+                }
+                Ok("fill_buf")
+            }
+            Op::FillReadBuf => {
+                self.op(O_FILL_READ_BUF);
+                let avail = self.avail();
+                let (prod0, calls0) = {
+                    let mut st = self.st.borrow_mut();
+                    st.clear_call();
+                    (st.produced.len(), st.read_calls)
+                };
+                let st = self.st.clone();
+                let Adapter::Sync(Some(s)) = &mut self.ad else { unreachable!() };
+                let r = drive(&st, s.fill_read_buf(), R, "fill_read_buf")?;
+                self.log(|| format!("fill_read_buf() -> {r:?}"));
+                let (delta, called) = {
+                    let st = self.st.borrow();
+                    (st.produced.len() - prod0, st.read_calls > calls0)
+                };
+                match r {
+                    Ok(n) => {
+                        if n != delta {
+                            return fail(
+                                "fill-count",
+                                "sync",
+                                "fill_read_buf",
+                                format!("fill_read_buf returned {n} but the inner stream produced {delta} bytes during the call"),
+                            );
+                        }
+                        if n == 0 && !self.eof() {
+                            return fail(
+                                "premature-eof",
+                                "sync",
+                                "fill_read_buf",
+                                "fill_read_buf returned 0 (EOF) although the inner stream never reported EOF".into(),
+                            );
+                        }
+                    }
+                    Err(e) if !called => {
+                        // the adapter's own report: only legitimate when the limit is reached
+                        self.limit_hit = true;
+                        if avail < self.max {
+                            return fail(
+                                "spurious-limit-error",
+                                "sync",
+                                &format!("fill_read_buf/{:?}", e.kind()),
+                                format!(
+                                    "fill_read_buf failed with {:?} ({e}) without calling the inner stream, {avail} bytes buffered, max_buffer_size {}",
+                                    e.kind(),
+                                    self.max
+                                ),
+                            );
+                        }
+                    }
+                    Err(e) => self.check_err("fill_read_buf", &e)?,
+                }
+                Ok("fill_read_buf")
+            }
+            Op::Write(m) => {
+                self.op(O_WRITE);
+                let data = self.data(m);
+                let pend = self.pending_w();
+                self.st.borrow_mut().clear_call();
+                let Adapter::Sync(Some(s)) = &mut self.ad else { unreachable!() };
+                let r = s.write(&data);
+                self.log(|| format!("write({m} bytes) -> {r:?}"));
+                self.check_write("write", &data, r, pend)?;
+                Ok("write")
+            }
+            Op::Flush => {
+                self.op(O_FLUSH);
+                let calls0 = {
+                    let st = self.st.borrow();
+                    st.write_calls + st.flush_done
+                };
+                let Adapter::Sync(Some(s)) = &mut self.ad else { unreachable!() };
+                let r = s.flush();
+                self.log(|| format!("flush() -> {r:?}"));
+                // documented no-op that always succeeds
+                if let Err(e) = r {
+                    return fail("unexpected-error", "sync", &format!("flush/{:?}", e.kind()), format!("Write::flush failed: {e}"));
+                }
+                let st = self.st.borrow();
+                if st.write_calls + st.flush_done != calls0 {
+                    return fail("sync-flush-did-io", "sync", "flush", "Write::flush touched the inner stream".into());
+                }
+                Ok("flush")
+            }
+            Op::FlushWriteBuf => {
+                self.op(O_FLUSH_WRITE_BUF);
+                let recv0 = {
+                    let mut st = self.st.borrow_mut();
+                    st.clear_call();
+                    st.received.len()
+                };
+                let st = self.st.clone();
+                let Adapter::Sync(Some(s)) = &mut self.ad else { unreachable!() };
+                let r = drive(&st, s.flush_write_buf(), W, "flush_write_buf")?;
+                self.log(|| format!("flush_write_buf() -> {r:?}"));
+                let delta = self.st.borrow().received.len() - recv0;
+                match r {
+                    Ok(n) => {
+                        self.after("flush_write_buf")?;
+                        self.check_flushed("flush_write_buf")?;
+                        if n != delta {
+                            return fail(
+                                "flush-count",
+                                "sync",
+                                "flush_write_buf",
+                                format!("flush_write_buf returned {n} but the inner stream received {delta} bytes during the call"),
+                            );
+                        }
+                    }
+                    Err(e) => self.check_err("flush_write_buf", &e)?,
+                }
+                Ok("flush_write_buf")
+            }
+            Op::Poll(e, k) => self.poll_entry(e, k),
+            Op::Release(half) => {
+                self.op(O_RELEASE);
+                self.release(half)?;
+                Ok("release")
+            }
+        }
+    }
+
+    fn release(&mut self, half: usize) -> Result<(), Fail> {
+        let op = self.st.borrow().blocked_op[half];
+        State::release(&self.st, half);
+        for e in half * 3..half * 3 + 3 {
+            let en = &self.entries[e];
+            if en.pending && en.cw.count() == en.count_at {
+                return fail(
+                    "lost-wake",
+                    "async",
+                    &format!("{}/inner-{}", ENTRY[e], op.name()),
+                    format!(
+                        "{} last returned Pending; the inner {} was released (progress possible) but its waker was never woken",
+                        ENTRY[e],
+                        op.name()
+                    ),
+                );
+            }
+        }
+        Ok(())
+    }
+
+    fn poll_entry(&mut self, e: usize, k: usize) -> Result<&'static str, Fail> {
+        let at = ENTRY[e];
+        CUR.with(|c| c.set((self.ad_name, at, self.cond())));
+        let half = e / 3;
+        self.op(O_POLL + e as u32);
+        if self.p.rich && choose(4) == 0 {
+            // the task moved: a fresh waker for this entry point
+            if self.entries[e].pending {
+                self.stale_wakers += 1;
+            }
+            self.entries[e] = Entry::new();
+        }
+        let waker = self.entries[e].waker.clone();
+        let mut cx = Context::from_waker(&waker);
+        let (a, eof0, pend0) = (self.avail(), self.eof(), self.pending_w());
+        let inflight0 = self.w_inflight;
+        let activity0 = {
+            let st = self.st.borrow();
+            st.write_calls + st.flush_done + st.errs_total
+        };
+        self.st.borrow_mut().clear_call();
+        let Adapter::Poll(s) = &mut self.ad else { unreachable!() };
+        let s = s.as_mut();
+        // run the call; normalise its result
+        enum Res {
+            Bytes(io::Result<Vec<u8>>, usize),
+            Count(io::Result<usize>, Vec<u8>),
+            Unit(io::Result<()>),
+        }
+        let polled: Poll<Res> = match e {
+            0 => {
+                let mut buf = vec![0u8; k];
+                FRead::poll_read(s, &mut cx, &mut buf).map(|r| {
+                    let n = *r.as_ref().unwrap_or(&0);
+                    Res::Bytes(r.map(|n| buf[..n.min(k)].to_vec()), n)
+                })
+            }
+            1 => {
+                let mut buf = vec![MaybeUninit::<u8>::uninit(); k];
+                s.poll_read_uninit(&mut cx, &mut buf).map(|r| {
+                    let n = *r.as_ref().unwrap_or(&0);
+                    // SAFETY: the adapter claims the first n bytes are initialised (Miri checks the claim).
+                    Res::Bytes(r.map(|n| buf[..n.min(k)].iter().map(|b| unsafe { b.assume_init() }).collect()), n)
+                })
+            }
+            2 => FBufRead::poll_fill_buf(s, &mut cx).map(|r| Res::Bytes(r.map(|d| d.to_vec()), 0)),
+            3 => {
+                let data = (0..k).map(|i| wbyte(self.accepted.len() + i)).collect::<Vec<u8>>();
+                FWrite::poll_write(s, &mut cx, &data).map(|r| Res::Count(r, data))
+            }
+            4 => FWrite::poll_flush(s, &mut cx).map(Res::Unit),
+            _ => {
+                self.close_started = true;
+                FWrite::poll_close(s, &mut cx).map(Res::Unit)
+            }
+        };
+        match polled {
+            Poll::Pending => {
+                self.log(|| format!("{at}({k}) -> Pending"));
+                self.saw_pending = true;
+                if half == W {
+                    self.w_inflight = true;
+                }
+                let en = &mut self.entries[e];
+                en.pending = true;
+                en.count_at = en.cw.count();
+                if !self.st.borrow().blocked[half] {
+                    return fail(
+                        "pending-without-blocked-inner",
+                        "async",
+                        at,
+                        format!("{at} returned Pending although no inner call of that half is blocked: nothing will ever wake the task"),
+                    );
+                }
+            }
+            Poll::Ready(res) => {
+                self.entries[e].pending = false;
+                if half == W {
+                    let st = self.st.borrow();
+                    let activity = st.write_calls + st.flush_done + st.errs_total;
+                    // poll_flush / poll_close only return Ready after their future finished;
+                    // poll_write may return Ready without touching the future at all
+                    if e != 3 || activity != activity0 {
+                        self.w_inflight = false;
+                    }
+                }
+                match res {
+                    Res::Bytes(r, n) if e != 2 => {
+                        self.log(|| format!("{at}({k}) -> Ready({r:?})"));
+                        if n > k {
+                            return fail("over-read", "async", at, format!("{at} returned {n} for a buffer of {k}"));
+                        }
+                        self.check_read(at, k, r, a, eof0)?;
+                    }
+                    Res::Bytes(r, _) => {
+                        self.log(|| format!("{at}() -> Ready({r:?})"));
+                        if let Some(j) = self.check_fill_buf(at, r, a, eof0)? {
+                            self.op(O_CONSUME);
+                            let Adapter::Poll(s) = &mut self.ad else { unreachable!() };
+                            FBufRead::consume(s.as_mut(), j);
+                            self.handed += j;
+                            self.log(|| format!("consume({j})"));
+                        }
+                    }
+                    Res::Count(r, data) => {
+                        self.log(|| format!("{at}({k} bytes) -> Ready({r:?})"));
+                        if matches!(r, Ok(n) if n > 0) && inflight0 {
+                            self.wrote_inflight = true;
+                        }
+                        self.check_write(at, &data, r, pend0)?;
+                    }
+                    Res::Unit(r) => {
+                        self.log(|| format!("{at}() -> Ready({r:?})"));
+                        match r {
+                            Ok(()) => {
+                                self.after(at)?;
+                                self.check_flushed(at)?;
+                                if e == 5 {
+                                    self.closed_ok = true;
+                                }
+                            }
+                            Err(err) => self.check_err(at, &err)?,
+                        }
+                    }
+                }
+            }
+        }
+        Ok(at)
+    }
+
+    // ---- end of program: everything must still come out --------------------
+
+    fn finish(&mut self) -> Result<(), Fail> {
+        let rd = self.dir != 1;
+        let wr = self.dir != 0;
+        self.st.borrow_mut().benign = true;
+        self.log(|| "-- drain against a benign inner stream".into());
+        let is_sync = matches!(self.ad, Adapter::Sync(_));
+        if is_sync {
+            if wr {
+                // a retry must deliver the unsent bytes
+                self.exec(Op::FlushWriteBuf)?;
+                self.after("flush_write_buf")?;
+                if self.pending_w() > 0 {
+                    return fail(
+                        "retry-stuck",
+                        "sync",
+                        "flush_write_buf",
+                        format!("a retried flush against a benign inner stream left {} bytes unsent", self.pending_w()),
+                    );
+                }
+            }
+            let into_parts = rd && choose(2) == 1;
+            if rd && !into_parts {
+                let mut rounds = 0;
+                loop {
+                    rounds += 1;
+                    if rounds > 4 * self.p.payload + 64 {
+                        return fail("retry-stuck", "sync", "read", "draining the read side does not terminate".into());
+                    }
+                    let before = self.handed;
+                    self.exec(Op::Read(7))?;
+                    self.after("read")?;
+                    if self.reported_eof {
+                        break;
+                    }
+                    if self.handed == before {
+                        self.exec(Op::FillReadBuf)?;
+                        self.after("fill_read_buf")?;
+                    }
+                }
+                if self.avail() > 0 {
+                    return fail("lost-bytes", "sync", "read", format!("EOF reported with {} produced bytes never handed out", self.avail()));
+                }
+            }
+            let Adapter::Sync(s) = &mut self.ad else { unreachable!() };
+            let s = s.take().expect("stream");
+            if into_parts {
+                self.ops |= 1 << O_INTO_PARTS;
+                let (_inner, tail) = s.into_parts();
+                let st = self.st.borrow();
+                if tail != st.produced[self.handed..] {
+                    return fail(
+                        "into_parts-tail",
+                        "sync",
+                        "into_parts",
+                        format!("into_parts returned {:?} but the unread tail is {:?}", tail, &st.produced[self.handed..]),
+                    );
+                }
+            } else {
+                drop(s.into_inner());
+            }
+        } else {
+            if self.p.rich && choose(8) == 0 {
+                // drop with whatever is in flight: only memory safety is checked here
+                self.log(|| "-- dropped with futures in flight".into());
+                return Ok(());
+            }
+            for half in [R, W] {
+                if self.st.borrow().blocked[half] {
+                    self.release(half)?;
+                }
+            }
+            if wr && !self.st.borrow().shut {
+                let mut ok = false;
+                for _ in 0..4 {
+                    self.poll_entry(4, 0)?;
+                    self.after("poll_flush")?;
+                    if !self.entries[4].pending && self.pending_w() == 0 {
+                        ok = true;
+                        break;
+                    }
+                }
+                if !ok {
+                    return fail(
+                        "retry-stuck",
+                        "async",
+                        &format!("poll_flush/{}", self.cond()),
+                        format!("retried poll_flush against a benign inner stream left {} bytes unsent", self.pending_w()),
+                    );
+                }
+            }
+            if wr && self.pending_w() > 0 {
+                return fail(
+                    "lost-bytes",
+                    "async",
+                    &format!("poll_close/{}", self.cond()),
+                    format!("{} accepted bytes never reached the inner stream, which is shut down", self.pending_w()),
+                );
+            }
+            if rd {
+                let mut rounds = 0;
+                loop {
+                    rounds += 1;
+                    if rounds > 4 * self.p.payload + 64 {
+                        return fail("retry-stuck", "async", "poll_read", "draining the read side does not terminate".into());
+                    }
+                    self.poll_entry(0, 7)?;
+                    self.after("poll_read")?;
+                    if self.entries[0].pending {
+                        return fail("retry-stuck", "async", "poll_read", "poll_read is Pending against a benign inner stream".into());
+                    }
+                    if self.reported_eof {
+                        break;
+                    }
+                }
+                if self.avail() > 0 {
+                    return fail("lost-bytes", "async", "poll_read", format!("EOF reported with {} produced bytes never handed out", self.avail()));
+                }
+            }
+        }
+        Ok(())
+    }
+
+    fn signature(&self) -> (String, bool) {
+        let st = self.st.borrow();
+        let names = |mask: u32, tab: &[&str]| -> String {
+            let mut s = String::new();
+            for (i, n) in tab.iter().enumerate() {
+                if mask >> i & 1 == 1 {
+                    if !s.is_empty() {
+                        s.push(',');
+                    }
+                    s.push_str(n);
+                }
+            }
+            s
+        };
+        // the benign defaults are left out of the signature: they are (nearly) always there
+        let nonbenign = st.classes & !(1 << C_GIVE_ALL | 1 << C_EOF | 1 << C_ACC_ALL | 1 << C_FLUSH | 1 << C_SHUT);
+        let sig = format!(
+            "{}-{}|calls={}|inner={}|limit={}|eof={}",
+            self.ad_name,
+            ["r", "w", "rw"][self.dir],
+            names(self.ops, &OP_NAMES),
+            names(nonbenign, &CLASS_NAMES),
+            self.limit_hit as u8,
+            self.reported_eof as u8,
+        );
+        // trivial: the inner stream never did anything but the benign default
+        (sig, nonbenign == 0 && !self.limit_hit)
+    }
+}
+
+/// An over-long length claim is a verdict instead of a harness slice panic.
+fn unwrap_len(at: &str, ad: &str, k: usize, r: io::Result<(Vec<u8>, usize)>) -> Result<io::Result<Vec<u8>>, Fail> {
+    match r {
+        Ok((_, n)) if n > k => fail("over-read", ad, at, format!("{at} returned {n} for a buffer of {k}")),
+        Ok((d, _)) => Ok(Ok(d)),
+        Err(e) => Ok(Err(e)),
+    }
+}
+
+fn run_program(p: &Params, log: Option<Rc<RefCell<Vec<String>>>>, own: &dyn Fn(&[usize]) -> bool) -> Outcome {
+    // configuration
+    let ads: Vec<usize> = (0..2).filter(|a| p.adapters >> a & 1 == 1).collect();
+    let ad_kind = ads[choose(ads.len())];
+    let dir = match p.dirs & 3 {
+        1 => 0,
+        2 => 1,
+        _ if p.rich => [0, 1, 2, 2, 2, 2][choose(6)],
+        _ => choose(2),
+    };
+    let base = p.bases[choose(p.bases.len())];
+    let maxes: Vec<usize> = p.maxes.iter().copied().filter(|m| *m >= base).collect();
+    let max = if maxes.is_empty() { base } else { maxes[choose(maxes.len())] };
+    let payload = if p.rich { choose(p.payload + 1) } else { p.payload };
+    let st: Shared = Rc::new(RefCell::new(State {
+        rich: p.rich,
+        pend: p.pend,
+        payload,
+        atoms_left: p.max_atoms,
+        benign: false,
+        produced: Vec::new(),
+        received: Vec::new(),
+        eof_returned: 0,
+        read_calls: 0,
+        write_calls: 0,
+        flush_done: 0,
+        shut: false,
+        classes: 0,
+        errs: Vec::new(),
+        errs_total: 0,
+        zero_write: false,
+        blocked: [false; 2],
+        blocked_op: [InnerOp::Read, InnerOp::Write],
+        waker: [None, None],
+        log,
+    }));
+    let ad = if ad_kind == 0 {
+        Adapter::Sync(Some(SyncStream::with_limits(base, max, Scripted(st.clone()))))
+    } else {
+        Adapter::Poll(Box::pin(AsyncStream::with_limits(base, max, (Scripted(st.clone()), Scripted(st.clone())))))
+    };
+    let ad_name = if ad_kind == 0 { "sync" } else { "async" };
+    {
+        let mut s = st.borrow_mut();
+        lg!(
+            s,
+            "{}::with_limits(base_capacity {base}, max_buffer_size {max}), {} side, inner payload {payload}",
+            if ad_kind == 0 { "SyncStream" } else { "AsyncStream" },
+            ["read", "write", "read+write"][dir]
+        );
+    }
+    let mut run = Run {
+        p,
+        st: st.clone(),
+        ad,
+        ad_name,
+        dir,
+        base,
+        max,
+        handed: 0,
+        accepted: Vec::new(),
+        reported_eof: false,
+        close_started: false,
+        closed_ok: false,
+        seen_shut: false,
+        wrote_inflight: false,
+        w_inflight: false,
+        entries: (0..6).map(|_| Entry::new()).collect(),
+        ops: 0,
+        limit_hit: false,
+        saw_wb: false,
+        saw_pending: false,
+        stale_wakers: 0,
+    };
+    let own_at = p.own_after.min(p.max_ops);
+    let mut result: Result<(), Fail> = Ok(());
+    if own_at == 0 && !own(&ch_trace()) {
+        return Outcome::Skip;
+    }
+    for step in 0..p.max_ops {
+        let menu = run.menu();
+        let op = menu[choose(menu.len())];
+        result = run.exec(op).and_then(|at| run.after(at));
+        if result.is_err() {
+            break;
+        }
+        if step + 1 == own_at && !own(&ch_trace()) {
+            return Outcome::Skip;
+        }
+    }
+    if result.is_ok() {
+        result = run.finish();
+    }
+    let (sig, trivial) = run.signature();
+    let leftover = {
+        // wakers must be given back once adapter and inner stream are gone
+        let entries = std::mem::take(&mut run.entries);
+        drop(run);
+        let mut s = st.borrow_mut();
+        s.waker = [None, None];
+        drop(s);
+        entries.iter().map(|e| Arc::strong_count(&e.cw).saturating_sub(2)).sum::<usize>()
+    };
+    LEFTOVER.with(|l| l.set(l.get().max(leftover)));
+    match result {
+        Ok(()) => Outcome::Done { sig, trivial },
+        Err(f) => Outcome::Fail(f),
+    }
+}
+
+thread_local! {
+    /// (adapter, entry point, condition) of the adapter call in progress, for panic signatures.
+    static CUR: std::cell::Cell<(&'static str, &'static str, &'static str)> = const { std::cell::Cell::new(("", "", "")) };
+    static LEFTOVER: std::cell::Cell<usize> = const { std::cell::Cell::new(0) };
+}
+
+// ---------------------------------------------------------------------------
+// Driver
+// ---------------------------------------------------------------------------
+
+fn replay_value(p: &Params, choices: &[usize], steps: &[String]) -> Value {
+    json!({"params": p.to_json(), "choices": choices, "steps": steps})
+}
+
+/// Re-run a choice sequence with logging to obtain the readable call script.
+fn explain(p: &Params, choices: &[usize]) -> Vec<String> {
+    let saved = uninstall();
+    install(Src::Rep(ReplayChooser::new(choices.to_vec())));
+    let steps = Rc::new(RefCell::new(Vec::new()));
+    let mut q = p.clone();
+    q.own_after = usize::MAX;
+    let _ = panics::catch(|| run_program(&q, Some(steps.clone()), &|_| true));
+    let _ = uninstall();
+    install(saved);
+    steps.take()
+}
+
+fn execute(p: &Params, rep: &mut Report, own: &dyn Fn(&[usize]) -> bool) {
+    let r = panics::catch(|| run_program(p, None, own));
+    let choices = ch_trace();
+    match r {
+        Ok(Outcome::Skip) => {}
+        Ok(Outcome::Done { sig, trivial }) => {
+            if rep.want_sample() && !trivial && choices.len() >= 8 {
+                let steps = explain(p, &choices);
+                rep.sample(replay_value(p, &choices, &steps));
+            }
+            rep.floor("limit-reached", sig.contains("limit=1"));
+            rep.floor("pending-then-released", sig.contains("release"));
+            rep.floor("failed-flush-then-retry", sig.contains("werr") || sig.contains("accept-0"));
+            rep.floor("eof-reported", sig.contains("eof=1"));
+            rep.eval(if trivial { None } else { Some(sig) });
+        }
+        Ok(Outcome::Fail(f)) if f.sig == "inconclusive" => {
+            rep.eval(None);
+            rep.inconclusive(&f.what);
+        }
+        Ok(Outcome::Fail(f)) => {
+            rep.eval(None);
+            let steps = explain(p, &choices);
+            rep.violation(&f.sig, &f.what, replay_value(p, &choices, &steps));
+        }
+        Err(pi) => {
+            rep.eval(None);
+            let (ad, at, cond) = CUR.with(|c| c.get());
+            let mut steps = explain(p, &choices);
+            steps.push(format!("{at}(..) panics"));
+            match pi.origin() {
+                panics::Origin::Repo(_) => {
+                    rep.violation(
+                        &format!("C12/{}/{ad}/{at}/{cond}", pi.sig()),
+                        &format!("panic in compio during {at} at {}:{}: {}", pi.file, pi.line, pi.message),
+                        replay_value(p, &choices, &steps),
+                    )
+                }
+                o => rep.inconclusive(&format!("harness panic {o:?}: {}", pi.message)),
+            }
+        }
+    }
+}
+
+fn usize_list(args: &Args, k: &str, d: &[usize]) -> Vec<usize> {
+    match args.get(k) {
+        Some(s) => s.split(',').filter_map(|x| x.trim().parse().ok()).collect(),
+        None => d.to_vec(),
+    }
+}
+
+pub fn main(args: &Args) {
+    let mut rep = Report::from_args("C12", &args.str("leg", "native"), args);
+    let shard = args.shard();
+    let nshards = args.nshards();
+    let adapters = args.usize("adapters", 3) & 3;
+    let dirs = args.usize("dirs", 3) & 3;
+    let pend = args.usize("pend", 1) != 0;
+
+    if let Some(path) = args.get("replay") {
+        let text = std::fs::read_to_string(path).expect("replay file");
+        let v: Value = vcommon::serde_json::from_str(&text).expect("replay json");
+        let prog = &v["program"];
+        let p = Params::from_json(&prog["params"]);
+        let choices: Vec<usize> = prog["choices"]
+            .as_array()
+            .map(|a| a.iter().map(|x| x.as_u64().unwrap_or(0) as usize).collect())
+            .unwrap_or_default();
+        install(Src::Rep(ReplayChooser::new(choices)));
+        execute(&p, &mut rep, &|_| true);
+        let _ = uninstall();
+        rep.finish();
+        return;
+    }
+
+    // --- exhaustive part: iterative deepening over the number of calls
+    let ex_ops = args.usize("ex-ops", if args.thorough() { 6 } else { 5 });
+    let ex_atoms = args.usize("ex-atoms", if args.thorough() { 4 } else { 3 });
+    if ex_ops > 0 {
+        let mut complete = true;
+        let mut total: u64 = 0;
+        'deep: for depth in 1..=ex_ops {
+            let p = Params {
+                mode: "exhaustive".into(),
+                max_ops: depth,
+                max_atoms: ex_atoms,
+                payload: args.usize("ex-payload", 12),
+                bases: usize_list(args, "ex-bases", &[1, 2, 4]),
+                maxes: usize_list(args, "ex-maxes", &[4, 8]),
+                rsizes: usize_list(args, "ex-rsizes", &[1, 3]),
+                wsizes: usize_list(args, "ex-wsizes", &[1, 3, 5]),
+                rich: false,
+                adapters,
+                dirs,
+                pend,
+                own_after: 3,
+            };
+            let own = |t: &[usize]| {
+                let h = t.iter().fold(0xcbf29ce484222325u64, |h, x| (h ^ *x as u64).wrapping_mul(0x100000001b3));
+                (h >> 7) % nshards == shard
+            };
+            let mut od = Odometer::new();
+            loop {
+                if !od.advance() {
+                    break;
+                }
+                install(Src::Od(od));
+                execute(&p, &mut rep, &own);
+                let Src::Od(back) = uninstall() else { unreachable!() };
+                od = back;
+                total += 1;
+                if rep.out_of_time() {
+                    complete = false;
+                    break 'deep;
+                }
+            }
+        }
+        rep.set_exhaustive(complete);
+        rep.count("exhaustive_programs_generated", total as i64);
+        rep.note(format!(
+            "exhaustive bound: calls<={ex_ops} (iterative deepening), non-benign inner atoms<={ex_atoms}, base in {{1,2,4}}, max in {{4,8}}, complete={complete}"
+        ));
+    }
+
+    // --- random part
+    let iters = args.iters(20_000, 300_000);
+    let p = Params {
+        mode: "random".into(),
+        max_ops: args.usize("rnd-ops", 40),
+        max_atoms: args.usize("rnd-atoms", 1000),
+        payload: args.usize("rnd-payload", 200),
+        bases: usize_list(args, "rnd-bases", &[1, 2, 3, 4, 5, 8, 16]),
+        maxes: usize_list(args, "rnd-maxes", &[4, 8, 13, 32, 64]),
+        rsizes: usize_list(args, "rnd-rsizes", &[0, 1, 2, 3, 7, 20]),
+        wsizes: usize_list(args, "rnd-wsizes", &[0, 1, 2, 3, 5, 9, 20]),
+        rich: true,
+        adapters,
+        dirs,
+        pend,
+        own_after: usize::MAX,
+    };
+    let base = Rng::new(args.seed()).fork(shard + 1);
+    for i in 0..iters {
+        if rep.out_of_time() {
+            break;
+        }
+        install(Src::Rnd(RandomChooser::new(base.fork(i as u64))));
+        execute(&p, &mut rep, &|_| true);
+        let _ = uninstall();
+    }
+    rep.max("waker_clones_left_after_drop", LEFTOVER.with(|l| l.get()) as i64);
+    rep.finish();
 }
